@@ -85,7 +85,7 @@ static void work_path(long lo, long hi, struct res *r, void *arg) {
         unsigned coin = (unsigned)(prng(&ps) & 2047);
         extern uint64_t E_create_clock_shift;
         uint64_t shift = (x & 3) == 1 ? 1024 * R_STEP : (x & 3) == 2 ? 2 * 1024 * R_STEP : (x & 7) == 3 ? (uint64_t)(3 + x % 5) * 1024 * R_STEP : 0;
-        char rep[200], h[40]; hex(s.secret, 19, h); sprintf(rep, "case %s %u %u %u 32 %llu", h, s.birthday, s.features, coin, (unsigned long long)shift);
+        char rep[200], h[40]; hex(s.secret, 19, h); sprintf(rep, "path %ld", x); (void)h;
         polyseed_data *d0 = seed_from_ref(&s); if (!d0) { res_viol(r, "c04:setup", rep, "load failed"); continue; }
         r->cases++;
         int bad = keygen_case(d0, &s, coin, 32, 0, r, rep, "path-load");
@@ -105,6 +105,20 @@ static void work_path(long lo, long hi, struct res *r, void *arg) {
         for (int i = 0; i < 32; i++) E.mask[i] = (uint8_t)prng(&ps);
         polyseed_crypt(d0, "p\xC3\xA4ss"); polyseed_crypt(d0, "pa\xCC\x88ss"); r->calls += 2;
         r->cases++; bad |= keygen_case(d0, &s, coin, 32, 0, r, rep, "path-crypt2");
+        /* the password operation applied twice with other seeds' password operations in between (one of their passwords a prefix of
+         * this one, and the empty password): what the KDF returns for a password depends on that password only */
+        if (!bad) {
+            rseed s2 = s; s2.secret[0] ^= 0x80; polyseed_data *other = seed_from_ref(&s2); uint8_t M[4][32]; for (int q = 0; q < 4; q++) for (int i = 0; i < 32; i++) M[q][i] = (uint8_t)prng(&ps);
+            if (other) {
+                static const char *OPW[3] = { "pass", "", "password1 and more" };
+                memcpy(E.mask, M[0], 32); polyseed_crypt(other, OPW[x % 3]);
+                memcpy(E.mask, M[1], 32); polyseed_crypt(d0, "password1");
+                memcpy(E.mask, M[2], 32); polyseed_crypt(other, "something else");
+                memcpy(E.mask, M[1], 32); polyseed_crypt(d0, "password1"); r->calls += 4;
+                polyseed_free(other);
+                r->cases++; bad |= keygen_case(d0, &s, coin, 32, 0, r, rep, "path-crypt-interleaved");
+            }
+        }
         /* encrypt, write the phrase down, restore it, decrypt: the restored and decrypted seed is the original */
         if (!bad) {
             E.mask[18] |= (uint8_t)(0x40 << (x & 1));
@@ -141,6 +155,7 @@ int main(int argc, char **argv) {
     E_kdf_hook = hook;
     struct sigaction sa; memset(&sa, 0, sizeof sa); sa.sa_sigaction = on_segv; sa.sa_flags = SA_SIGINFO | SA_NODEFER; sigaction(SIGSEGV, &sa, NULL);
     struct res *r = calloc(1, sizeof *r);
+    if (a + 1 < argc && !strcmp(argv[a], "path")) { long x = atol(argv[a + 1]); work_path(x, x + 1, r, NULL); for (int i = 0; i < r->nviol; i++) printf("REPRODUCED %s: %s\n", r->v[i].key, r->v[i].msg); return r->nviol ? 1 : 0; }
     if (a < argc && !strcmp(argv[a], "case")) {   /* case <secret> <birthday> <features> <coin> <keysize> */
         rseed s; parse_rseed(argv[a + 1], atoi(argv[a + 2]), atoi(argv[a + 3]), &s);
         unsigned coin = atoi(argv[a + 4]); size_t ksz = (size_t)atol(argv[a + 5]);
